@@ -1,8 +1,12 @@
 package main
 
 import (
+	"bufio"
 	"bytes"
 	"fmt"
+	"net/http"
+	"strconv"
+	"strings"
 	"time"
 
 	"github.com/lxzan/gws"
@@ -314,6 +318,70 @@ func runC02Inbound(c *Ctx) error {
 			c.oracleFail(fmt.Sprintf("gws did not inflate a conforming sender's stream correctly: %s [%s]", detail, tag), "inbound-inflate", map[string]any{"tag": tag})
 		}
 		c.count(tag, true, "kind=inbound")
+	}
+	// a peer that is NOT gws: it offers the extension in the forms RFC 7692 allows (without client_max_window_bits, with a
+	// bare one, with a server_max_window_bits request), reads the server's ANSWER and compresses with the window the answer
+	// allows it (2^N when the answer carries client_max_window_bits=N, 32 KiB otherwise, RFC 7692 7.1.2.2)
+	for oi, offer := range []string{"permessage-deflate", "permessage-deflate; client_max_window_bits", "permessage-deflate; server_max_window_bits=9", "permessage-deflate; client_max_window_bits=11; server_max_window_bits=10"} {
+		for _, cbits := range []int{8, 10, 12, 15} {
+			opt := &gws.ServerOption{ReadMaxPayloadSize: 1 << 20, PermessageDeflate: gws.PermessageDeflate{Enabled: true, ServerContextTakeover: true, ClientContextTakeover: true,
+				ServerMaxWindowBits: 12, ClientMaxWindowBits: cbits}}
+			h := &recHandler{}
+			tap := newMemConn()
+			conn, err := serverConnWith(gws.NewUpgrader(h, opt), tap, map[string][]string{"Sec-WebSocket-Extensions": {offer}})
+			tag := fmt.Sprintf("inbound foreign peer offer=%q server ClientMaxWindowBits=%d", offer, cbits)
+			if err != nil {
+				c.oracleFail("handshake failed: "+err.Error()+" ["+tag+"]", "inbound-setup", map[string]any{"tag": tag})
+				continue
+			}
+			resp, rerr := http.ReadResponse(bufio.NewReader(bytes.NewReader(tap.written())), nil)
+			if rerr != nil {
+				c.oracleFail("unparsable handshake answer ["+tag+"]", "inbound-setup", map[string]any{"tag": tag})
+				continue
+			}
+			answer := resp.Header.Get("Sec-WebSocket-Extensions")
+			if !strings.Contains(answer, "permessage-deflate") {
+				c.count(tag, false, "kind=inbound-foreign-declined")
+				continue
+			}
+			peerBits, peerTO := 15, true
+			for _, part := range strings.Split(answer, ";") {
+				kv := strings.SplitN(strings.TrimSpace(part), "=", 2)
+				if kv[0] == "client_max_window_bits" && len(kv) == 2 {
+					if n, e := strconv.Atoi(strings.Trim(kv[1], "\"")); e == nil && n >= 8 && n <= 15 {
+						peerBits = n
+					}
+				}
+				if kv[0] == "client_no_context_takeover" {
+					peerTO = false
+				}
+			}
+			win := 1 << uint(peerBits)
+			first := randBytes(c.Rng, win)
+			msgsP := [][]byte{first, append([]byte(nil), first[:64]...), append(append([]byte("x"), first[len(first)/2:]...), first[:10]...), append([]byte("marker "), first[win-179:]...)}
+			var history, stream []byte
+			for i, p := range msgsP {
+				var dict []byte
+				if peerTO {
+					dict = lastN(history, win)
+				}
+				stream = append(stream, encodeFrame(frameSpec{Fin: true, Rsv1: true, Opcode: 2, Masked: true, Key: [4]byte{2, byte(i), 3, byte(oi)}, Payload: rfc7692Deflate(p, dict, 9), DeclLen: -1})...)
+				history = append(history, p...)
+			}
+			tap.feed(cutChunks(c, stream, oi%3)...)
+			tap.setEOF()
+			runWithTimeout(20*time.Second, conn.ReadLoop)
+			got := msgEvents(h)
+			ok := len(got) == len(msgsP)
+			for i := 0; i < len(msgsP) && i < len(got); i++ {
+				ok = ok && bytes.Equal(got[i].Payload, msgsP[i])
+			}
+			if !ok {
+				c.oracleFail(fmt.Sprintf("gws did not inflate the stream of a peer that compresses with the window the handshake answer %q allows (2^%d): %d of %d messages delivered intact-or-not [%s]", answer, peerBits, len(got), len(msgsP), tag),
+					"inbound-inflate", map[string]any{"tag": tag, "answer": answer})
+			}
+			c.count(tag, true, "kind=inbound-foreign")
+		}
 	}
 	return nil
 }
